@@ -32,6 +32,71 @@ func runC30(w *World, r *Report) {
 
 	fns := w.srcFuncs(rp)
 
+	// ---- R-C30-4: records of one Read do not share storage
+	r.Rule("R-C30-4", "per-row freshness: in ResHandle.Read the record (reflect.New) and every decode target handed to json.Unmarshal are created inside the row loop, so two records of one result never share a backing array", 2)
+
+	if rd := w.ssaFunc(rp, "ResHandle.Read"); rd == nil {
+		r.Anchor("R-C30-4", "resources.ResHandle.Read")
+	} else {
+		// the row loop: the loop whose body calls (*sql.Rows).Scan
+		var rowLoop *loopInfo
+
+		for _, li := range naturalLoops(rd) {
+			for b := range li.body {
+				for _, in := range b.Instrs {
+					if c, ok := in.(*ssa.Call); ok && callID(c.Common()) == "database/sql.Rows.Scan" {
+						if rowLoop == nil || len(li.body) < len(rowLoop.body) {
+							rowLoop = li
+						}
+					}
+				}
+			}
+		}
+
+		if rowLoop == nil {
+			r.Anchor("R-C30-4", "the loop over rows.Scan in ResHandle.Read")
+		} else {
+			n := 0
+
+			for b := range rowLoop.body {
+				for _, in := range b.Instrs {
+					c, ok := in.(*ssa.Call)
+					if !ok {
+						continue
+					}
+
+					switch callID(c.Common()) {
+					case "encoding/json.Unmarshal":
+						n++
+
+						key := "resources.ResHandle.Read|json.Unmarshal target is per row"
+						if n > 1 {
+							key += "#" + sprintInt(n)
+						}
+
+						target := stripValue(c.Call.Args[1])
+						al, isAlloc := target.(*ssa.Alloc)
+
+						switch {
+						case !isAlloc:
+							r.Violate("R-C30-4", key, w.pos(in.Pos()), "the decode target is not a variable of this function")
+						case !rowLoop.body[al.Block()]:
+							r.Violate("R-C30-4", key, w.pos(in.Pos()), "the slice json.Unmarshal decodes into is declared outside the row loop: Unmarshal reuses its backing array, so the list field of an earlier record is overwritten by a later row")
+						default:
+							r.Discharge("R-C30-4", key, w.pos(in.Pos()), "declared inside the row loop")
+						}
+					case "reflect.New":
+						r.Discharge("R-C30-4", "resources.ResHandle.Read|record allocated per row", w.pos(in.Pos()), "reflect.New inside the row loop")
+					}
+				}
+			}
+
+			if n == 0 {
+				r.Anchor("R-C30-4", "json.Unmarshal in the row loop of ResHandle.Read")
+			}
+		}
+	}
+
 	// ---- R-C30-1
 	// writesRecv: functions (pointer receiver / first pointer param) that store to a field of param 0
 	writes := map[*ssa.Function]string{}
